@@ -87,3 +87,72 @@ pub open spec fn g_tilde_ast(s: Seq<char>) -> Option<((bool, PSpec), Seq<char>)>
 pub open spec fn g_caret_ast(s: Seq<char>) -> Option<(PSpec, Seq<char>)> {
     match eat(s, '^') { None => None, Some(r) => g_partial(skip_ws(r)) }
 }
+// ---- hyphen ranges: partial? blanks+ '-' blanks+ partial
+pub open spec fn g_hyphen_ast(s: Seq<char>) -> Option<((Option<PSpec>, PSpec), Seq<char>)> {
+    let (lo, r0) = match g_partial(s) { Some((ps, r)) => (Some(ps), r), None => (None::<PSpec>, s) };
+    if ws_span(r0) == 0 { None } else {
+        match eat(skip_ws(r0), '-') {
+            None => None,
+            Some(r2) => if ws_span(r2) == 0 { None } else {
+                match g_partial(skip_ws(r2)) { None => None, Some((up, r4)) => Some(((lo, up), r4)) }
+            },
+        }
+    }
+}
+pub open spec fn lower_is(p: Option<Partial>, s: Option<PSpec>) -> bool {
+    match (p, s) { (Some(x), Some(y)) => partial_is(x, y) && wf_partial(x), (None, None) => true, _ => false }
+}
+// ---- what ends a comparator: blanks, `||`, or the end of the text
+pub open spec fn at_term(s: Seq<char>) -> bool { s.len() == 0 || ws_char(s[0]) || starts2(s, '|', '|') }
+// garbage: everything up to the next terminator
+pub open spec fn term_pos(s: Seq<char>) -> nat
+    decreases s.len()
+{
+    if at_term(s) { 0 } else { 1 + term_pos(s.skip(1)) }
+}
+pub proof fn lemma_term_pos(s: Seq<char>)
+    ensures term_pos(s) <= s.len(), at_term(s.skip(term_pos(s) as int)),
+    decreases s.len(),
+{
+    if at_term(s) { assert(s.skip(0) =~= s); } else {
+        lemma_term_pos(s.skip(1));
+        assert(s.skip(1).skip(term_pos(s.skip(1)) as int) =~= s.skip(term_pos(s) as int));
+    }
+}
+// repeat_till(0.., any, <terminator>) skips exactly term_pos characters (induction over the number of characters skipped)
+pub open spec fn is_any_parser<'s, E, F: Parser<&'s str, char, E>>(f: F) -> bool {
+    &&& forall|a: &'s str, o: char, b: &'s str| #[trigger] f.accepts(a, o, b) ==> (a@.len() > 0 && b@ == a@.skip(1))
+    &&& forall|a: &'s str| #[trigger] f.rejects(a) ==> a@.len() == 0
+}
+pub open spec fn is_term_parser<'s, E, G: Parser<&'s str, &'s str, E>>(g: G) -> bool {
+    &&& forall|a: &'s str, o: &'s str, b: &'s str| #[trigger] g.accepts(a, o, b) ==> (at_term(a@) && b@ == a@)
+    &&& forall|a: &'s str| #[trigger] g.rejects(a) ==> !at_term(a@)
+}
+pub proof fn lemma_rt_garbage<'s, E, F: Parser<&'s str, char, E>, G: Parser<&'s str, &'s str, E>>(f: F, g: G, i: &'s str, n: nat, o2: &'s str, rest: &'s str)
+    requires is_any_parser::<E, F>(f), is_term_parser::<E, G>(g), rt_acc::<&'s str, char, &'s str, E, F, G>(f, g, i, n, o2, rest),
+    ensures rest@ == i@.skip(term_pos(i@) as int), n == term_pos(i@),
+    decreases n,
+{
+    if n == 0 {
+        assert(i@.skip(0) =~= i@);
+    } else {
+        let (x, m) = choose|x: char, m: &'s str| #[trigger] f.accepts(i, x, m) && rt_acc::<&'s str, char, &'s str, E, F, G>(f, g, m, (n - 1) as nat, o2, rest);
+        assert(g.rejects(i));
+        assert(!at_term(i@));
+        lemma_rt_garbage::<E, F, G>(f, g, m, (n - 1) as nat, o2, rest);
+        lemma_term_pos(i@.skip(1));
+        assert(term_pos(i@) == 1 + term_pos(i@.skip(1)));
+        assert(i@.skip(1).skip(term_pos(i@.skip(1)) as int) =~= i@.skip(term_pos(i@) as int));
+    }
+}
+pub proof fn lemma_rt_garbage_never_fails<'s, E, F: Parser<&'s str, char, E>, G: Parser<&'s str, &'s str, E>>(f: F, g: G, i: &'s str, n: nat)
+    requires is_any_parser::<E, F>(f), is_term_parser::<E, G>(g), rt_rej::<&'s str, char, &'s str, E, F, G>(f, g, i, n),
+    ensures false,
+    decreases n,
+{
+    if n == 0 {
+    } else {
+        let (x, m) = choose|x: char, m: &'s str| #[trigger] f.accepts(i, x, m) && rt_rej::<&'s str, char, &'s str, E, F, G>(f, g, m, (n - 1) as nat);
+        lemma_rt_garbage_never_fails::<E, F, G>(f, g, m, (n - 1) as nat);
+    }
+}
